@@ -8,6 +8,11 @@ Decided:
  PAIR.repack-index   the repack index of a collection is taken before, and on the same path as, its
                      insertion into the collections list, once per distinct collection
  DELEG.repack        compute/persist return repack(<results in collection order>)
+ REBUILD.metadata    Delayed/Array/Bag._rebuild (used by persist and optimize) forward the metadata that is not
+                     derivable from the graph (length; chunks, dtype, meta; npartitions)
+ ORD.sequence-positions  _HLGExprSequence._tune_down regroups operands by optimizer; the original output
+                     positions are recorded and restored by __dask_keys__ (compute/persist pair keys with
+                     collections by position)
 Not decided: values; scheduler independence.
 """
 from __future__ import annotations
@@ -101,6 +106,64 @@ def check(ctx):
     cf = base.func("compute")
     ok = bool(find("expr = collections_to_expr(collections, optimize_graph)", cf)) and bool(find("keys = list(flatten(expr.__dask_keys__()))", cf)) and bool(find("results = schedule(expr, keys, **kwargs)", cf))
     ctx.ob("DELEG.compute.keys", cf, "compute: schedule(expr, keys of the finalized expression)", ok)
+    # ---------------- metadata survives persist/optimize: _rebuild passes the collection's metadata on
+    # (frozen table, confirmed by reading each constructor: these are the constructor parameters that
+    # carry state which is not derivable from the graph)
+    REBUILD = [
+        (DEL, "Delayed", "Delayed", {"length": "self._length"}, "nout/len() of the Delayed"),
+        ("dask/array/core.py", "Array", "Array", {"chunks": "self.chunks", "dtype": "self.dtype", "meta": "self._meta"}, "chunks, dtype and meta of the Array"),
+        ("dask/bag/core.py", "Bag", "type(self)", {"npartitions": "self.npartitions"}, "npartitions of the Bag"),
+    ]
+    n_rb = 0
+    for rel, cname, ctor, want, what in REBUILD:
+        ci = model.klass(rel, cname)
+        rb = ci.own_methods.get("_rebuild")
+        init = ci.own_methods.get("__new__") or ci.own_methods.get("__init__")
+        if rb is None or init is None:
+            raise AnchorMissing(f"{rel}::{cname}._rebuild / constructor not found")
+        cs = [r.value for r in returns(rb) if isinstance(r.value, ast.Call) and unparse(r.value.func) == ctor]
+        n_rb += len(cs)
+        if not cs:
+            ctx.ob("REBUILD.metadata", rb, f"{cname}._rebuild returns {ctor}(...)", False, "no constructor call returned")
+            continue
+        for c in cs:
+            params = [a.arg for a in init.args.args][1:]  # drop self/cls
+            b = {}
+            for i, a in enumerate(c.args):
+                if i < len(params):
+                    b[params[i]] = unparse(a)
+            for k in c.keywords:
+                if k.arg:
+                    b[k.arg] = unparse(k.value)
+            bad = {p_: (b.get(p_), v) for p_, v in want.items() if b.get(p_) != v}
+            ctx.ob("REBUILD.metadata", c, f"{cname}._rebuild passes {what} to the new collection ({', '.join(f'{k}={v}' for k, v in want.items())})", not bad, "" if not bad else f"not forwarded: {bad} -- the rebuilt collection loses this metadata after persist/optimize")
+        pp = ci.own_methods.get("__dask_postpersist__")
+        ok = pp is not None and any(unparse(r.value) == "(self._rebuild, ())" for r in returns(pp))
+        ctx.ob("REBUILD.postpersist", pp or ci.node, f"{cname}.__dask_postpersist__ returns (self._rebuild, ())", ok)
+    ctx.count("rebuild_constructor_calls", n_rb)
+    ctx.floor("rebuild_constructor_calls", 3)
+    # ---------------- positional contract: optimisation of a sequence of collections keeps the output order
+    ex = model.module("dask/_expr.py")
+    seq = model.klass("dask/_expr.py", "_HLGExprSequence")
+    td = seq.own_methods.get("_tune_down")
+    dk = seq.own_methods.get("__dask_keys__")
+    if td is None or dk is None:
+        raise AnchorMissing("_HLGExprSequence._tune_down / __dask_keys__ not found")
+    regroup = [c for c in calls(td, "groupby")]
+    ctx.count("sequence_regrouping_sites", len(regroup))
+    if regroup:
+        # grouping moves members with the same optimizer next to each other; compute()/persist()
+        # pair expr.__dask_keys__() with the collections by position, so the order must be restored
+        rec = any(k.arg == "positions" for c in calls(td, "_HLGExprGroup") for k in c.keywords)
+        over_enum = any("enumerate(self.operands)" in unparse(c) for c in regroup)
+        restores = "positions" in unparse(dk) and bool(find("placed.update(zip(op.positions, op.__dask_keys__()))", dk))
+        ok = rec and over_enum and restores
+        ctx.ob("ORD.sequence-positions", td, "_tune_down groups operands by optimizer; the group records its members' positions and __dask_keys__ returns the keys in the original order", ok, "" if ok else "grouping reorders the outputs but compute()/persist() match keys with collections by position: dask.compute(arr, bag, arr2) returns (arr, arr2, bag)")
+    else:
+        ctx.ob("ORD.sequence-positions", td, "_tune_down does not regroup operands", True, nontrivial=False)
+    pf = base.func("persist")
+    ok = bool(find("zip(collections, collection_exprs, expr.__dask_keys__(), strict=True)", pf))
+    ctx.ob("ORD.persist-zip", pf, "persist pairs collections with expr.__dask_keys__() positionally (strict zip)", ok)
     # ---------------- sibling dispatch in delayed
     dl = model.module(DEL)
     du = dl.func("unpack_collections")
@@ -117,6 +180,9 @@ def check(ctx):
 
 
 VARIANTS = [
+    (DEL, "        return Delayed(key, dsk, self._length, layer=layer)", "        return Delayed(key, dsk, layer=layer)", "REBUILD.metadata"),
+    ("dask/array/core.py", "        return Array(dsk, name, self.chunks, self.dtype, self._meta)", "        return Array(dsk, name, self.chunks, self.dtype)", "REBUILD.metadata"),
+    ("dask/_expr.py", "                    positions=positions,\n", "", "ORD.sequence-positions"),
     (BASE, "                tsk = Task(tok, typ, List(*[_unpack(i) for i in expr]))", "                tsk = Task(tok, list, List(*[_unpack(i) for i in expr]))", "TAB.containers"),
     (BASE, "            if typ in (list, tuple, set):", "            if typ in (list, tuple):", "TAB.containers"),
     (BASE, "                    tok, getitem, TaskRef(collections_token), len(collections)\n                )\n                collections.append(expr)", "                    tok, getitem, TaskRef(collections_token), len(collections)\n                )\n            if True:\n                collections.append(expr)", "PAIR.repack"),
